@@ -628,7 +628,7 @@ func main() {
 				if r.Thorough() {
 					for _, b2 := range two {
 						p := program{Init: inits[1], Threads: [][]in{{mkOp(a1, "a", 11), mkOp(a2, "b", 12)}, {mkOp(b1, "a", 21), mkOp(b2, "b", 22)}}}
-						scs = append(scs, mapScenario(p, mcx.Bounds{Preempt: 3, Env: -1, Select: -1}))
+						scs = append(scs, mapScenario(p, mcx.Bounds{Preempt: 4, Env: -1, Select: -1}))
 					}
 				}
 			}
